@@ -6,6 +6,11 @@ BASE = "cd /repo && go test -mod=mod -json -vet=off -count=1 -timeout 25m ./..."
 
 CLAIMED = {
  # id: (category, text, design_ref, level_note, technique)
+ "C13": ("other",
+  "Decides the bookkeeping structure of the adaptive sub-stepping for every path through it: each accumulator weighted by the sub-step length that reaches an output executes control-equivalently with the subtraction of that sub-step from the remaining time (once per accepted sub-step, never in the trial loop) - exactly the clause the property's why_tests_cant names, and it found the rainfall/evaporation accounting defect, now fixed; the increments of the reported totals are, as symbolic monomials, terms of the volume update (R13.4), so the reported volumes are the ones that changed the volume, in the same units; final level and area are the capped table lookups of the very value returned as volume; contributions to the outflow other than the release term are conditional on volume > volumes[nLVA-1]. The min/max release bounds and numerical closure are NOT decided.",
+  "DESIGN.md section 2, C13",
+  "Sub-step loop recognised as `for T > 0 { ...; T -= dt }`; versions of a source variable related through SSA phi webs; R13.4 treats non-polynomial subexpressions as opaque symbols.",
+  "control-equivalence (dominance/post-dominance) of accumulations + symbolic polynomial comparison of update terms on go/ssa"),
  "C12": ("other",
   "Narrow structural claim: delegation between constituent kernels is nil-safe. For every call in models/ that passes the constant nil for an array parameter of another kernel, an interprocedural nil-ness summary shows the callee (and its callees) invoke methods on that parameter only under a `!= nil` guard. This is the path the property names explicitly (decay-disabled dissolved-constituent storage delegates to the lumped routing kernel) and it found a genuine nil-pointer panic, now fixed. The mass budgets, non-negativity and the flush rule are value properties and are NOT decided.",
   "DESIGN.md section 2, C12",
